@@ -5,6 +5,7 @@ import (
 	"bytes"
 	"encoding/json"
 	"fmt"
+	"io"
 	"math/rand"
 	"os"
 	"path/filepath"
@@ -448,6 +449,16 @@ func run(c *fw.Ctx) {
 			}
 		}
 	}
+	// 2c. readers that break: a fixed text with comments, strings and long
+	// strings, cut by a persistent read error at every offset
+	{
+		src := []byte("local a = 1 -- comment\nlocal s = \"str\\\nx\" --[[ block\n comment ]] local l = [==[long\nstring]==]\nreturn a, s, l, 0x10, 1e3 --[=[ tail")
+		for k := 0; k <= len(src); k++ {
+			if c.Mine(k) {
+				runReaderFault(c, src, k, true)
+			}
+		}
+	}
 	// 3. corpus: mutations and strided truncation
 	for i, f := range corpusFiles() {
 		if !c.Mine(i) {
@@ -529,6 +540,59 @@ func run(c *fw.Ctx) {
 	}
 }
 
+// faultReader serves the first k bytes of data and then fails with a
+// persistent non-EOF error (a connection that broke). A loader that ignores
+// the error would read "bytes" for ever: after giveUp further calls the
+// reader ends the input so that the run terminates and the count is the
+// verdict (logical steps, not time).
+type faultReader struct {
+	data  []byte
+	k     int
+	pos   int
+	calls int
+}
+
+const giveUp = 2000
+
+var errBroken = fmt.Errorf("verif: reader broke")
+
+func (f *faultReader) Read(p []byte) (int, error) {
+	if f.pos < f.k {
+		n := copy(p, f.data[f.pos:f.k])
+		f.pos += n
+		return n, nil
+	}
+	f.calls++
+	if f.calls > giveUp {
+		return 0, io.EOF
+	}
+	return 0, errBroken
+}
+
+// runReaderFault: Load from a reader that breaks after k bytes must come back
+// (with any outcome) without calling the broken reader over and over.
+func runReaderFault(c *fw.Ctx, src []byte, k int, count bool) {
+	cs := Case{Kind: "reader-fault", N: k}
+	if len(src) <= 4096 {
+		cs.Bytes = src
+	}
+	c.Begin(cs)
+	fr := &faultReader{data: src, k: k}
+	L := lua.NewState(lua.Options{SkipOpenLibs: true})
+	o := gl.Protect(func() error { _, err := L.Load(fr, "<reader>"); return err })
+	L.Close()
+	if count {
+		c.Count("reader_fault_cases", 1)
+	}
+	switch {
+	case o.GoPanic != nil:
+		c.Violation("Go panic out of Load when the reader fails: "+fw.Short(o.PanicStr, 200), cs)
+	case fr.calls > giveUp:
+		c.Violation(fmt.Sprintf("the reader failed after %d bytes with a persistent error; Load called Read %d more times (it never stops on its own)", k, giveUp), cs)
+	}
+	c.End(true, fmt.Sprintf("readerfault/%d/%d", len(src), k))
+}
+
 // alignProgram: every line end of this text is slid across the 4096-byte
 // refills of the scanner's reader. The line ends sit inside long strings,
 // after a backslash in a short string, inside a block comment and between
@@ -566,6 +630,10 @@ func replay(c *fw.Ctx, raw json.RawMessage) {
 	var cs Case
 	if err := json.Unmarshal(raw, &cs); err != nil {
 		fmt.Println("bad case:", err)
+		return
+	}
+	if cs.Kind == "reader-fault" {
+		runReaderFault(c, cs.Bytes, cs.N, false)
 		return
 	}
 	if cs.Kind == "align" {
